@@ -10,7 +10,7 @@ The harness (vltrace ltrace) builds every case as a real image (tar layers, OCI 
 loads it with image.FromV1Image, scans it with Scanner.ScanContainer and projects Package.LayerDetails.
 
 Outside the verdict, reported under coverage.extension_two_extractors: two extractors reading one file."""
-import json, os, random, shutil, sys, tempfile
+import json, os, random, shutil, sys, tempfile, time
 sys.path.insert(0, os.path.dirname(os.path.abspath(__file__)))
 import vf, args
 
@@ -45,6 +45,7 @@ class Replayer:
     def run(self, cases, mode="pkglist", layout="flat"):
         a = ["-a", "mode=" + mode, "-a", "layout=" + layout]
         env = None
+        t0 = time.time()
         if self.scratch:
             a = ["-tmp", self.scratch] + a
             env = {"TMPDIR": self.scratch}
@@ -52,6 +53,7 @@ class Replayer:
         if len(obs) != len(cases):
             raise vf.NotAVerdict("harness returned %d of %d cases" % (len(obs), len(cases)))
         self.images += len(cases)
+        vf.log("[scan] %d images (%s/%s) in %.1fs" % (len(cases), mode, layout, time.time() - t0))
         return obs
 
     def judge(self, cases, obs, label, mode, layout):
@@ -211,22 +213,26 @@ def body(a, ck, rp):
                 ck.sample({"case": c, "history": describe(c)})
         vf.log("[replay] %s: %d of %d cases scanned, %d violations so far" % (cfg, len(cases), len(r.cases), len(ck.violations)))
 
-    # 3. seeded random long histories (TLC simulation of the same spec, all invariants evaluated on every state)
-    nsim = 12000 if T else 2500
-    sim = vf.require_ok(vf.tlc("LayerTrace", "LayerTrace-sim.cfg", simulate="num=%d" % nsim, depth=9, seed=ck.seed,
-                               timeout=1200, workers=8), "LayerTrace-sim.cfg")
-    seen, simcases = set(), []
-    for c in sim.cases:
-        k = vf.canon(c)
-        if k not in seen:
-            seen.add(k)
-            simcases.append(c)
+    # 3. seeded random long histories (TLC simulation of the same spec, all invariants evaluated on every state):
+    #    dense (every layer may rewrite every file) and sparse (a layer touches at most one file)
+    simcases, seen = [], set()
+    for cfg, ntr in (("LayerTrace-sim.cfg", 1500 if T else 250), ("LayerTrace-sim-sparse.cfg", 3000 if T else 500)):
+        sim = vf.require_ok(vf.tlc("LayerTrace", cfg, simulate="num=%d" % ntr, depth=9, seed=ck.seed,
+                                   timeout=1200, workers=8), cfg)     # num is per worker
+        mine = []
+        for c in sim.cases:
+            k = vf.canon(c)
+            if k not in seen:
+                seen.add(k)
+                mine.append(c)
+        simcases += mine
+        ck.cov["cfgs"].append({"cfg": cfg, "mode": "simulate", "seed": ck.seed, "constants": consts(cfg),
+                               "cases_emitted": len(sim.cases), "distinct_cases": len(mine), "wall_s": round(sim.wall, 1),
+                               "entries_histogram": {str(n): sum(1 for c in mine if c["n"] == n) for n in range(1, 7)}})
+        vf.log("[tlc] %s (simulate, seed %d): %d distinct cases, %.1fs" % (cfg, ck.seed, len(mine), sim.wall))
     obs = rp.run(simcases, layout="deep")
-    rp.judge(simcases, obs, "LayerTrace-sim.cfg seed %d" % ck.seed, "pkglist", "deep")
-    ck.cov["cfgs"].append({"cfg": "LayerTrace-sim.cfg", "mode": "simulate", "seed": ck.seed, "constants": consts("LayerTrace-sim.cfg"),
-                           "cases_emitted": len(sim.cases), "distinct_cases": len(simcases), "wall_s": round(sim.wall, 1),
-                           "entries_histogram": {str(n): sum(1 for c in simcases if c["n"] == n) for n in range(1, 7)}})
-    for c in simcases:
+    rp.judge(simcases, obs, "simulated histories seed %d" % ck.seed, "pkglist", "deep")
+    for c in simcases[::-1]:
         if c.get("nontrivial") and c["n"] == 6 and c["history"] == "match":
             ck.sample({"case": c, "history": describe(c)})
             break
@@ -260,7 +266,7 @@ def body(a, ck, rp):
          if T else
          "all <=4-entry one-file histories with matching history, all <=3-entry ones under every alignment, all <=2-entry two-file "
          "histories, seeded 15%/25% samples of the rest") +
-        "; plus seeded TLC-simulated histories of up to 6 entries over 2 files x 3 packages; plus a seeded sample re-run through the real "
+        "; plus seeded TLC-simulated histories (dense and sparse) of up to 6 entries over 2 files x 3 packages; plus a seeded sample re-run through the real "
         "dpkg extractor. evaluations = package attributions compared; non-trivial = histories where some package's introducing layer is "
         "not the first layer that wrote its file.")
     ck.cov["not_explored"] = [
